@@ -38,7 +38,7 @@ pub fn generate(prop: &str, tier: &str, seed: u64, out: &str, shards: usize, his
         }
         "C13" => {
             crate::checks2::gen_macros(&asm, &mut sh, histories.expect("macro case file"), out);
-            let depths: Vec<usize> = if thorough { vec![1, 2, 8, 64, 256, 1024, 4096] } else { vec![1, 2, 8, 32, 64] };
+            let depths: Vec<usize> = if thorough { vec![1, 2, 8, 64, 127, 128, 129, 130, 256, 1024, 4096] } else { vec![1, 2, 8, 32, 64, 127, 128, 129, 200] };
             crate::checks2::gen_chains(&mut sh, &depths);
         }
         "C07" => crate::checks2::gen_c07(&asm, &mut mach, &mut rng, &mut sh, thorough),
